@@ -190,8 +190,9 @@ def pixel_scale(lon, lat):
 
 
 def xyz(lon, lat):
-    lo, la = np.radians(lon), np.radians(lat)
-    return np.stack([R_EARTH * np.cos(la) * np.cos(lo), R_EARTH * np.cos(la) * np.sin(lo), R_EARTH * np.sin(la)], axis=-1)
+    with np.errstate(all="ignore"):
+        lo, la = np.radians(lon), np.radians(lat)
+        return np.stack([R_EARTH * np.cos(la) * np.cos(lo), R_EARTH * np.cos(la) * np.sin(lo), R_EARTH * np.sin(la)], axis=-1)
 
 
 def make_source_points(r, tgt, radius, n, malformed):
@@ -216,8 +217,22 @@ def make_source_points(r, tgt, radius, n, malformed):
     allpix = [(i, j) for i in range(h) for j in range(w) if fin[i, j]]
     while len(pts) < n and border:
         i, j = r.choice(border) if r.random() < 0.8 else r.choice(allpix)
-        u = r.choice([0.3, 0.6, 0.9, 0.97, 0.995, 0.9995, 1.0005, 1.01])
-        pts.append(dest_point(float(lon[i, j]), float(lat[i, j]), r.uniform(0, 2 * math.pi), chord_to_angle(radius * u)))
+        lo0, la0 = float(lon[i, j]), float(lat[i, j])
+        kind = r.random()
+        if kind < 0.2:
+            # tangent seekers: the point of largest longitude difference at chord distance u * radius from the pixel
+            a = chord_to_angle(radius * r.choice([0.99, 0.999, 0.9999, 0.99995]))
+            if abs(math.radians(la0)) + a < math.pi / 2 - 1e-9:
+                dl = math.degrees(math.asin(min(1.0, math.sin(a) / math.cos(math.radians(la0)))))
+                lt = math.degrees(math.asin(max(-1.0, min(1.0, math.sin(math.radians(la0)) / math.cos(a)))))
+                pts.append(((lo0 + r.choice([-1, 1]) * dl + 180.0) % 360.0 - 180.0, lt))
+                continue
+        u = r.choice([0.3, 0.6, 0.9, 0.97, 0.995, 0.9995, 0.99995, 1.0005, 1.01])
+        if kind < 0.35:
+            bearing = r.choice([0.0, math.pi])                 # due north / south: the latitude buffer (arc vs chord)
+        else:
+            bearing = r.uniform(0, 2 * math.pi)
+        pts.append(dest_point(lo0, la0, bearing, chord_to_angle(radius * u)))
     while len(pts) < n:
         pts.append((r.uniform(-180, 180), r.uniform(-90, 90)))
     r.shuffle(pts)
@@ -261,7 +276,7 @@ def configs_for(ctx, rows, mp_ok, small):
 def gen_cases(ctx, mp_ok):
     r = ctx.rng
     targets = fixed_targets()
-    n_rand = ctx.n(8, 260)
+    n_rand = ctx.n(16, 260)
     targets += [random_target(r) for _ in range(n_rand)]
     cases = []
     for ti, tgt in enumerate(targets):
@@ -270,7 +285,7 @@ def gen_cases(ctx, mp_ok):
         if ti == 1:
             radius = 50000.0
         else:
-            radius = float(round(ps * r.choice([0.7, 1.3, 2.2, 4.0]) if r.random() < 0.85 else r.choice([3.0e5, 1.0e6, 1.6e6])))
+            radius = float(round(ps * r.choice([0.7, 1.3, 2.2, 4.0]) if r.random() < 0.8 else r.choice([3.0e5, 1.0e6, 1.6e6, 2.5e6])))
         radius = max(radius, 1000.0)
         n = r.randint(20, 120) if ctx.tier == "quick" else r.randint(20, 400)
         malformed = (ti % 7 == 3)
@@ -505,3 +520,299 @@ def describe_diff(a, b):
     if idx.size == 0:
         return ""
     return ": %d cells differ, e.g. flat index %d: %r vs %r" % (idx.size, idx[0], float(x[idx[0]]), float(y[idx[0]]))
+
+
+# ---------------------------------------------------------------------------------------------
+# Coq side: reduction-mask skeleton and segment assembly against the implementation
+COQ_HDR = ("From Coq Require Import ZArith List Bool PrimFloat.\n"
+           "From PR Require Import Base.ListX Base.F64 Model.ReduceMask Model.C03_run.\n"
+           "Import ListNotations.\nOpen Scope Z_scope.\n")
+
+
+def fh(x):
+    s = fhex(x)
+    return "PrimFloat." + s if s in ("nan", "infinity", "neg_infinity") else s
+
+
+def flist(l):
+    return "[" + "; ".join(fh(float.fromhex(x) if isinstance(x, str) else x) for x in l) + "]"
+
+
+def table(log, name):
+    seen, out = set(), []
+    for n, a, v in log:
+        if n == name and a not in seen:
+            seen.add(a)
+            out.append("(%s, %s)" % (fh(float.fromhex(a)), fh(float.fromhex(v))))
+    return "[" + "; ".join(out) + "]"
+
+
+def mask_case_text(case, obs):
+    """Coq literal of one mask_case, or None when the reduction does not apply / crashed."""
+    red = obs.get("red", {})
+    if "mask" not in red:
+        return None
+    if red["applies_to"] == "source":
+        plon, plat = dec(obs["src_lonlat"][0], np.float64), dec(obs["src_lonlat"][1], np.float64)
+    else:
+        plon, plat = dec(obs["tgt_lonlat"][0], np.float64), dec(obs["tgt_lonlat"][1], np.float64)
+    mask = dec(red["mask"], np.uint8).astype(bool).ravel()
+    if mask.size != plon.size:
+        return None
+    sides = " ".join(flist(s) for s in red["side_lons"] + red["side_lats"])
+    pts = "[" + "; ".join("(%s, %s)" % (fh(a), fh(b)) for a, b in zip(plon.tolist(), plat.tolist())) + "]"
+    m = "[" + "; ".join("true" if b else "false" for b in mask.tolist()) + "]"
+    log = red["libm"]
+    return "(mk_case (mk_sides %s) %s %s %s %s %s %s %s %s)" % (
+        sides, fh(case["radius"]), table(log, "sin"), table(log, "cos"), table(log, "arcsin"),
+        table(log, "degrees"), table(log, "radians"), pts, m)
+
+
+def seg_case_texts(case, obs):
+    """segment-assembly cases: per-target answers of the plain run as tables, arrays of the segmented runs as expectation"""
+    out = []
+    runs = obs.get("runs") or []
+    if not runs:
+        return out
+    base = info_arrays(runs[0]["info1"])
+    if base is None:
+        return out
+    tshape = obs["tshape"]
+    rows, cols = (tshape[0], tshape[1]) if len(tshape) == 2 else (tshape[0], 1)
+    voi = base["voi"].astype(bool).ravel()
+    ia = base["ia"].reshape(-1)
+    if voi.sum() != ia.size:
+        return out
+    qtab, j = [], 0
+    for v in voi.tolist():
+        if v:
+            qtab.append("[%d]" % int(ia[j]))
+            j += 1
+        else:
+            qtab.append("[]")
+    bl = "[" + "; ".join("true" if b else "false" for b in voi.tolist()) + "]"
+    for run in runs[1:]:
+        cfg = run["cfg"]
+        if cfg["reduce"] or cfg["nprocs"] != 1 or cfg["segments"] is None:
+            continue
+        a = info_arrays(run["info1"])
+        if a is None:
+            continue
+        v2 = "[" + "; ".join("true" if b else "false" for b in a["voi"].astype(bool).ravel().tolist()) + "]"
+        i2 = "[" + "; ".join("[%d]" % int(x) for x in a["ia"].reshape(-1).tolist()) + "]"
+        out.append("(%d, %d%%nat, %d%%nat, %s, [%s], %s, %s)" % (cfg["segments"], rows, cols, bl, "; ".join(qtab), v2, i2))
+    return out
+
+
+COMPONENT = {1: "lat_window", 2: "lon_window", 3: "lat_and_lon_window", 0: "not_rejected_by_model"}
+
+
+def shard(l, n):
+    return [l[i:i + n] for i in range(0, len(l), n)]
+
+
+def run_impl_sharded(ctx, cases, per=6, workers=8, timeout=1700):
+    from concurrent.futures import ThreadPoolExecutor
+    chunks = shard(cases, per)
+    with ThreadPoolExecutor(max_workers=workers) as ex:
+        futs = [ex.submit(ctx.impl, "c03", {"cases": ch}, timeout) for ch in chunks]
+        res = []
+        for f in futs:
+            res += f.result()["cases"]
+    return res
+
+
+def mp_available(ctx):
+    try:
+        r = ctx.impl("c03", {"cases": [], "probe_mp": True}, timeout=120)
+        return bool(r.get("mp_ok"))
+    except Exception:
+        return False
+
+
+def analyse(ctx, cases, obs_list):
+    """Oracle + attribution + correspondence for a list of (case, observation). Returns list of (key, what, replay)."""
+    reports = []            # (case index, key, what, extra)
+    facts_all = []
+    for ci, (case, obs) in enumerate(zip(cases, obs_list)):
+        def report(key, what, extra, ci=ci):
+            reports.append((ci, key, what, extra))
+        facts_all.append(check_case(ctx, case, obs, report))
+
+    # ---- Coq: masks (both variants of the skeleton), reasons for lost points, segment assembly
+    mtexts, midx = [], []
+    for ci, (case, obs) in enumerate(zip(cases, obs_list)):
+        t = mask_case_text(case, obs) if "runs" in obs else None
+        if t is not None:
+            midx.append(ci)
+            mtexts.append(t)
+    files = []
+    per_file = 12
+    for fi, ch in enumerate(shard(list(zip(midx, mtexts)), per_file)):
+        lost = []
+        for pos, (ci, _) in enumerate(ch):
+            f = facts_all[ci]
+            pts = sorted(f["lost_src"] if obs_list[ci]["red"]["applies_to"] == "source" else f["lost_tgt"])[:40]
+            lost.append("(%d%%nat, [%s])" % (pos, "; ".join("%d%%nat" % p for p in pts)))
+        body = (COQ_HDR + "Definition cases : list mask_case := [\n%s].\n" % ";\n".join(t for _, t in ch)
+                + "Definition lost : list (nat * list nat) := [%s].\n" % "; ".join(lost)
+                + "Eval vm_compute in (bad (chk_mask true) cases).\n"
+                + "Eval vm_compute in (bad (chk_mask false) cases).\n"
+                + "Definition dflt := mk_case (mk_sides [] [] [] [] [] [] [] []) 0%float [] [] [] [] [] [] [].\n"
+                + "Eval vm_compute in (map (fun e => reasons true (nth (fst e) cases dflt) (snd e)) lost).\n"
+                + "Eval vm_compute in (map (fun e => reasons false (nth (fst e) cases dflt) (snd e)) lost).\n")
+        files.append(("c03_mask_%03d" % fi, body, [ci for ci, _ in ch]))
+    stexts = []
+    for case, obs in zip(cases, obs_list):
+        stexts += seg_case_texts(case, obs)
+    sfiles = []
+    for fi, ch in enumerate(shard(stexts, 60)):
+        body = (COQ_HDR + "Definition cases : list (Z * nat * nat * list bool * list (list Z) * list bool * list (list Z)) := [\n%s].\n" % ";\n".join(ch)
+                + "Eval vm_compute in (bad chk_segments cases).\n")
+        sfiles.append(("c03_seg_%03d" % fi, body, ch))
+    res = ctx.coq_eval_many([(n, t) for n, t, _ in files] + [(n, t) for n, t, _ in sfiles])
+
+    from .common import evals
+    variant_votes = {"fixed": 0, "legacy": 0, "neither": 0}
+    reason_of = {}          # case index -> (variant, winding/mode code, [codes])
+    mask_bad = []
+    for name, _, cis in files:
+        out, ok = res[name]
+        if not ok:
+            ctx.broken.append(("correspondence:reduction_mask", "model evaluation failed: " + out[-400:]))
+            continue
+        ev = evals(out)
+        nums = [[int(x) for x in __import__("re").findall(r"-?\d+", __import__("re").sub(r"%[a-zA-Z]+", "", e))] for e in ev]
+        bad_fixed, bad_legacy = set(nums[0]), set(nums[1])
+        rs = {True: parse_reasons(ev[2]), False: parse_reasons(ev[3])}
+        for pos, ci in enumerate(cis):
+            if pos not in bad_fixed:
+                variant_votes["fixed"] += 1
+                reason_of[ci] = ("fixed",) + rs[True][pos]
+            elif pos not in bad_legacy:
+                variant_votes["legacy"] += 1
+                reason_of[ci] = ("legacy",) + rs[False][pos]
+            else:
+                variant_votes["neither"] += 1
+                mask_bad.append(ci)
+    ctx.count("mask_cases_matching_repaired_skeleton", variant_votes["fixed"])
+    ctx.count("mask_cases_matching_snapshot_skeleton", variant_votes["legacy"])
+    # a case on which both skeletons agree is counted for 'fixed'; the tree is 'legacy' only if no case needs 'fixed'
+    if mask_bad:
+        c0 = cases[mask_bad[0]]
+        ctx.broken.append(("correspondence:reduction_mask",
+                           "data_reduce mask differs from both skeleton models on %d of %d cases, e.g. case %d (%s, target %s)" % (
+                               len(mask_bad), len(midx), mask_bad[0], c0["tag"], str(c0["target"] if c0["mode"] == "swath_to_area" else c0["source"])[:160])))
+    nseg_bad = 0
+    for name, _, ch in sfiles:
+        out, ok = res[name]
+        if not ok:
+            ctx.broken.append(("correspondence:segments", "model evaluation failed: " + out[-400:]))
+            continue
+        b = ints(out)
+        nseg_bad += len(b)
+        if b:
+            ctx.broken.append(("correspondence:segments", "segment assembly model and implementation differ on %d of %d cases, e.g. %s" % (
+                len(b), len(ch), ch[b[0]][:200])))
+    ctx.count("segment_assembly_cases", len(stexts))
+
+    # ---- final keys
+    out = []
+    for ci, key, what, extra in reports:
+        case = cases[ci]
+        if key in ("C03.reduce.neighbours", "C03.reduce.result"):
+            f = facts_all[ci]
+            r = reason_of.get(ci)
+            applies = obs_list[ci].get("red", {}).get("applies_to")
+            lost = sorted(f["lost_src"] if applies == "source" else f["lost_tgt"])[:40]
+            comp = "unmodelled"
+            detail = ""
+            if r is not None and lost:
+                variant, code, codes = r
+                cs = sorted(set(codes))
+                comp = COMPONENT.get(cs[0], "?") if len(cs) == 1 else "lat_and_lon_window"
+                if code // 10 in (0, 1):
+                    comp = "lat_window.polar_class"
+                detail = " [%s skeleton: winding class %d, lon mode %d; lost %s index %s rejected by: %s]" % (
+                    variant, code // 10, code % 10, "source" if applies == "source" else "target", lost[:6],
+                    [COMPONENT.get(c, "?") for c in codes[:6]])
+            elif not lost:
+                comp = "no_lost_point"
+            key = "C03.H_red.%s.%s" % (comp, case["tag"])
+            what = what + detail
+        out.append((ci, key, what, extra))
+    return out, facts_all, variant_votes
+
+
+def parse_reasons(text):
+    """'[(22, [2; 2]); (23, [])]' -> [(22, [2, 2]), (23, [])]"""
+    import re
+    text = re.sub(r"%[a-zA-Z]+", "", text)
+    out = []
+    for m in re.finditer(r"\(\s*(-?\d+)\s*,\s*\[([^\]]*)\]\s*\)", text):
+        out.append((int(m.group(1)), [int(x) for x in re.findall(r"-?\d+", m.group(2))]))
+    return out
+
+
+def replay_payload(case, extra):
+    c = dict(case)
+    cfgs = [c["configs"][0]]
+    if extra.get("config") and extra["config"] != cfgs[0]:
+        ref = extra.get("reference")
+        if ref and ref != cfgs[0]:
+            cfgs.append(dict(ref, fresh_all=True))
+        elif extra["config"]["reduce"] and (extra["config"]["segments"], extra["config"]["nprocs"]) != (1, 1):
+            cfgs.append({"reduce": True, "segments": 1, "nprocs": 1, "fresh_all": True})
+        cfgs.append(dict(extra["config"], fresh_all=True))
+    c["configs"] = cfgs
+    return c
+
+
+def run(ctx):
+    ctx.rule = ("geometry pool: one fixed representative per input class of the property text (mid/high latitude, off the central "
+                "meridian, boundary longitude exactly 0.0, near a pole, over a pole, across the dateline, rotated and flipped grids, "
+                "geos disk with off-earth corners, one-pixel-thick targets) plus PRNG-generated targets of the same families; sources "
+                "= a cloud around the target in the projected plane plus boundary seekers at 0.3..1.01 x radius from border pixels in "
+                "random bearings, a malformed stream (lon 181, lat 90.5, NaN, 1e30) in every 7th case, every 6th case reversed "
+                "(grid -> swath, reduction of the targets); per case every reduce_data x segments {1,2,3,rows,rows+3,None} "
+                "(x nprocs 2 in the thorough tier) x nn/gauss/custom(with_uncert) x 2 datasets (int / multi-channel / masked). "
+                "One evaluation = one configuration of one case; non-trivial = the plain call finds at least one neighbour and the "
+                "configuration differs from the plain call; distinct = distinct (geometry, radius, k, configuration)")
+    mp_ok = mp_available(ctx) if ctx.thorough else False
+    if ctx.thorough and not mp_ok:
+        ctx.notes.append("multiprocessing unavailable in this sandbox run: nprocs=2 configurations skipped")
+    cases = gen_cases(ctx, mp_ok)
+    obs_list = run_impl_sharded(ctx, cases, per=ctx.n(6, 5), workers=8)
+    reports, facts_all, votes = analyse(ctx, cases, obs_list)
+    for case, obs, f in zip(cases, obs_list, facts_all):
+        ctx.count("class_" + case["tag"])
+        ctx.count("mode_" + case["mode"])
+        for cfg in case["configs"]:
+            nontriv = f["neigh"] > 0 and cfg is not case["configs"][0]
+            ctx.case((case["id"], repr(case["target"])[:2000], case["radius"], case["k"], cfg_name(cfg)), nontrivial=nontriv,
+                     sample={"class": case["tag"], "mode": case["mode"], "radius": case["radius"], "k": case["k"],
+                             "config": cfg_name(cfg), "neighbours_found_by_plain_call": f["neigh"],
+                             "target": {kk: vv for kk, vv in case["target"].items() if kk in ("proj", "w", "h", "extent", "shape")}})
+            ctx.count("nprocs_%d" % cfg["nprocs"])
+            ctx.count("reduce_%s" % cfg["reduce"])
+        if f["ties"]:
+            ctx.count("tie_only_differences", f["ties"])
+    ctx.traces = sum(f["runs"] for f in facts_all)
+    seen = set()
+    for ci, key, what, extra in reports:
+        if (ci, key) in seen:
+            continue
+        seen.add((ci, key))
+        case = cases[ci]
+        ctx.add_failure(key, "case %d (%s, %s, radius %.0f m, k=%d): %s" % (ci, case["tag"], case["mode"], case["radius"], case["k"], what),
+                        {"oracle": "organisation", "case": replay_payload(case, extra), "key": key})
+
+
+def replay(ctx, data):
+    rp = data["case"]
+    case = rp["case"]
+    obs = ctx.impl("c03", {"cases": [case]})["cases"]
+    reports, _, _ = analyse(ctx, [case], obs)
+    for _, key, what, _ in reports:
+        print("  still failing: %s: %s" % (key, what[:300]))
+    return bool(reports) or bool(ctx.broken)
